@@ -277,6 +277,22 @@ size = ahb_size
 
 
 def shrink(scenario):
+    """candidates stay scenarios generate() could have made: callers of the same objects keep the same AHB"""
+    for candidate in _shrink(scenario):
+        twins = [r for r in candidate["requests"] if r["op"].get("same_objects")]
+        if len(twins) == 1:
+            twins[0]["op"] = {k: v for k, v in twins[0]["op"].items() if k != "same_objects"}
+        elif twins:
+            before = [r["op"]["ahb"] for r in scenario["requests"] if r["op"].get("same_objects")]
+            changed = next((r["op"]["ahb"] for r in twins if r["op"]["ahb"] not in before), twins[0]["op"]["ahb"])
+            candidate["requests"] = [
+                dict(r, op=dict(r["op"], ahb=clone(changed))) if r["op"].get("same_objects") else r
+                for r in candidate["requests"]
+            ]
+        yield candidate
+
+
+def _shrink(scenario):
     if len(scenario["requests"]) > 1:
         for index in range(len(scenario["requests"])):
             candidate = clone(scenario)
